@@ -137,3 +137,7 @@ package router
 //@   requires !isnil(rc)
 //@   callsite AddCriterion: ifaceptr(arg1) == ptrint(addr(sourcePortSetCriterion)) ==> dyntype(arg1, *SourcePortSetCriterion) && arg2 == rc.InvertFromPorts
 //@   callsite AddCriterion: ifaceptr(arg1) == ptrint(addr(destPortSetCriterion)) ==> dyntype(arg1, *DestPortSetCriterion) && arg2 == rc.InvertToPorts
+
+// Built by (empty) contract where the service manager is verified.
+//@ func (*Config).Router
+//@   noinline
